@@ -420,6 +420,8 @@ def _build(r):
                 # numbers that are neither int nor float are not child values
                 "fraction": lambda: __import__("fractions").Fraction(1, 2), "decimal": lambda: __import__("decimal").Decimal("1.5"),
                 "bytearray": lambda: bytearray(b"ab"), "memoryview": lambda: memoryview(b"ab"), "frozenset": lambda: frozenset([1]),
+                "generator": lambda: (x for x in ("g1", "g2")), "iterator": lambda: iter(["i1", "i2"]), "map": lambda: map(str, [1, 2]),
+                "dictkeys": lambda: {"k1": 1}.keys(), "dictitems": lambda: {"k1": 1}.items(), "enumerate": lambda: enumerate(["e"]),
                 "function": lambda: (lambda: "x"), "exception": lambda: ValueError("v"), "module": lambda: __import__("json")}[t]()
     raise ValueError(k)
 
